@@ -137,9 +137,9 @@ func runC15(c *Ctx) {
 					}
 				}
 				ok, got := isNewline(argsOf(cs)[1])
-				r.Check("C15.separator-agreement", short(f.Name())+"/"+calleeName(cs.Common()), mod.Pos(cs.Pos()), ok, "separator must be the newline; got "+got)
+				r.Check("C15.separator-agreement", short(refName(f))+"/"+calleeName(cs.Common()), mod.Pos(cs.Pos()), ok, "separator must be the newline; got "+got)
 			}
-			r.Check("C15.separator-agreement", short(f.Name())+"/uses the separator ("+role+")", mod.Pos(f.Pos()), n >= 1, "expected a newline "+role+" here")
+			r.Check("C15.separator-agreement", short(refName(f))+"/uses the separator ("+role+")", mod.Pos(f.Pos()), n >= 1, "expected a newline "+role+" here")
 		}
 	}
 	checkSep(m, "internal/counter", "IsStackCounter", "test")
@@ -166,7 +166,7 @@ func runC15(c *Ctx) {
 	// createReport and ReadFile classify with IsStackCounter
 	for _, spec := range [][2]string{{"internal/upload", "uploader.createReport"}, {"internal/counter", "ReadFile"}} {
 		f := m.Func(spec[0], spec[1])
-		r.Check("C15.separator-agreement", short(f.Name())+"/classifies with IsStackCounter", m.Pos(f.Pos()), len(callsIn(f, "internal/counter.IsStackCounter")) >= 1, "one predicate decides what a stack counter is")
+		r.Check("C15.separator-agreement", short(refName(f))+"/classifies with IsStackCounter", m.Pos(f.Pos()), len(callsIn(f, "internal/counter.IsStackCounter")) >= 1, "one predicate decides what a stack counter is")
 	}
 
 	// ---- decode: identity on plain names -------------------------------------------
